@@ -287,6 +287,11 @@ func (u *Unit) Report(f *Finding, c any) bool {
 	if f == nil {
 		return false
 	}
+	if strings.Contains(f.What, "no space left on device") || strings.Contains(f.What, "cannot allocate memory") {
+		// the sandbox ran out of disk or memory: inconclusive, never a verdict about ogen
+		u.T.Errorf("HARNESS: resource exhaustion while checking a case: %s", f.What)
+		return false
+	}
 	u.mu.Lock()
 	defer u.mu.Unlock()
 	if u.known[f.Classifier] {
@@ -424,7 +429,7 @@ func Rapid[C any](u *Unit, checks int, regress []C, draw func(*rapid.T) C, check
 			if f == nil {
 				return
 			}
-			if u.Known(f.Classifier) {
+			if u.Known(f.Classifier) || strings.Contains(f.What, "no space left on device") || strings.Contains(f.What, "cannot allocate memory") {
 				u.Report(f, c)
 				return
 			}
